@@ -69,8 +69,10 @@ func New(logger zerolog.Logger, proxies ...string) func(http.Handler) http.Handl
 			} else {
 				ipHolders = append(ipHolders, ipNet)
 			}
+		} else if ip := net.ParseIP(ipAddr); ip != nil {
+			ipHolders = append(ipHolders, simpleIP(ip))
 		} else {
-			ipHolders = append(ipHolders, simpleIP(net.ParseIP(ipAddr)))
+			logger.Warn().Msgf("Trusted proxies IP %q could not be parsed", ipAddr)
 		}
 	}
 
@@ -78,7 +80,8 @@ func New(logger zerolog.Logger, proxies ...string) func(http.Handler) http.Handl
 
 	return func(next http.Handler) http.Handler {
 		return http.HandlerFunc(func(rw http.ResponseWriter, req *http.Request) {
-			if !trustedProxies.Contains(net.ParseIP(httpx.IPFromHostPort(req.RemoteAddr))) {
+			peerIP := net.ParseIP(httpx.IPFromHostPort(req.RemoteAddr))
+			if peerIP == nil || !trustedProxies.Contains(peerIP) {
 				for _, name := range untrustedHeader {
 					req.Header.Del(name)
 				}
